@@ -59,6 +59,9 @@ def mk_enum(path, name):
     return ("enum", path, name)
 
 
+ADTS = None  # set by peval.PEval: crate ADT table, so that struct constants decode field by field
+
+
 def from_json(val, tyt):
     """typed conversion of a driver-decoded constant"""
     if val is None or tyt is None:
@@ -80,8 +83,13 @@ def from_json(val, tyt):
     if k == "adt":
         if isinstance(val, str):
             return mk_enum(tyt["path"], val)
-        if isinstance(val, dict) and "struct" in val:
-            return TOP  # field types not carried; not needed by any rule
+        if isinstance(val, dict) and "struct" in val and ADTS is not None:
+            a = ADTS.get(tyt["path"])
+            if a and a.get("kind") == "Struct" and len(a["variants"]) == 1 and not a.get("generic"):
+                flds = a["variants"][0]["fields"]
+                if len(flds) == len(val["struct"]):
+                    return ("adt", tyt["path"], 0, a["variants"][0]["name"],
+                            tuple(from_json(v, fl.get("tyt")) for v, fl in zip(val["struct"], flds)))
         return TOP
     if k in ("array", "slice"):
         if not isinstance(val, list):
